@@ -409,6 +409,16 @@ def _davidson(model: Model, D: RuleResult):
         D.ok(f.fq, "the iteration stops when max|residual| < %s (all requested pairs, all batches)" % eps[0])
     else:
         D.bad(f, brk[0] if brk else loop, "the loop must stop on max|resid| < min_eps with max_resid the largest residual entry")
+    # the loop is left only when the residual test succeeds or the search space is the whole space (AV square): any other exit returns
+    # unconverged Ritz pairs as if they were eigenpairs
+    allowed_tests = {"max_resid < %s" % (eps[0] if eps else "min_eps"), "AV.shape[-1] == AV.shape[-2]", "AV.shape[-2] == AV.shape[-1]"}
+    other_exits = [b for b in brk if ast.unparse(b.test) not in allowed_tests]
+    deep = [n for n in ast.walk(loop) if isinstance(n, (ast.Break, ast.Return)) and not any(n in b.body for b in brk)]
+    if not other_exits and not deep:
+        D.ok(f.fq, "the iteration is left only on max|resid| < min_eps or when the basis spans the whole space (exact Rayleigh-Ritz)")
+    else:
+        D.bad(f, (other_exits + deep)[0] if not isinstance((other_exits + deep)[0], ast.If) else other_exits[0], "davidson can leave its loop by a test other than the residual test / full-space test: "
+              "the best *unconverged* Ritz pairs are then returned as eigenpairs, without any warning")
     best = [s for s in loop.body if isinstance(s, ast.If) and "best_resid" in ast.unparse(s.test)]
     okb = False
     if best:
@@ -455,6 +465,14 @@ def _davidson(model: Model, D: RuleResult):
     # initial guess is M-orthonormalised likewise
     iv = model.func(IMPL, "_set_initial_v")
     isrc = ast.unparse(iv.node)
+    ivrets = [r for r in ast.walk(iv.node) if isinstance(r, ast.Return)]
+    ivdefs = function_defs(iv.node)
+    all_via_qr = len(ivrets) == 1 and isinstance(ivrets[0].value, ast.Name) and \
+        all(isinstance(d, ast.Call) and ast.unparse(d.func) == "tallqr" for d in ivdefs.get(ivrets[0].value.id, [])[-2:]) and \
+        getattr(ivrets[0], "_parent", None) is iv.node
+    if not all_via_qr:
+        D.bad(iv, ivrets[0] if ivrets else iv.node, "_set_initial_v has an exit that does not go through tallqr: that start block is not M-orthonormal, and Davidson's cached A V "
+              "goes stale at the first re-orthonormalisation")
     if "tallqr(V, MV=M.mm(V))" in isrc and "tallqr(V)" in isrc:
         D.ok(iv.fq, "the initial block is (M-)orthonormalised the same way")
     else:
@@ -572,7 +590,7 @@ def rules(model: Model, tier: str) -> List[RuleResult]:
     R = RuleResult(PROP, "C05-R", "dense generalised path: congruence reduction with P M P^H = I and back-transformation X = P^H W (word normalisation)", min_instances=6)
     T = RuleResult(PROP, "C05-T", "requested pairs = first / last neig of eigh's ascending output, same slice on values and vectors, every call site", min_instances=8)
     Q = RuleResult(PROP, "C05-Q", "tallqr: Q^H M Q normalises to the identity", min_instances=3)
-    D = RuleResult(PROP, "C05-D", "Davidson: Rayleigh-Ritz projection, residual with M iff given, stop test, best-pair bookkeeping, M-orthonormalisation", min_instances=8)
+    D = RuleResult(PROP, "C05-D", "Davidson: Rayleigh-Ritz projection, residual with M iff given, enumerated loop exits, best-pair bookkeeping, M-orthonormalisation on every path", min_instances=9)
     S = RuleResult(PROP, "C05-S", "svd: Gram operator / eigenvector side / other factor pairing, non-negative s, vh = v^H", min_instances=7)
     V = RuleResult(PROP, "C05-V", "Hermiticity and shape asserted before computing; defaults", min_instances=6)
     _reduction(model, R)
